@@ -228,6 +228,9 @@ func (e *Env) Build(mode string) (string, error) {
 		args = append(args, "-race")
 	case "racevar":
 		tags += ",vshim,vracevar"
+	case "racefree":
+		// the real race build: race detector on, real sync package, no shim
+		args = append(args, "-race")
 	case "checkptr":
 		args = append(args, "-gcflags=all=-d=checkptr")
 	default:
@@ -351,7 +354,7 @@ func (e *Env) runOnce(bin string, job Job, prop string, shard int, from int64, s
 	}
 	args = append(args, job.Args...)
 	cmd := exec.Command(bin, args...)
-	if job.Mode != "race" {
+	if job.Mode != "race" && job.Mode != "racefree" {
 		// address-space limit: a runaway allocation dies at once with "out of memory"
 		lim := job.MaxRSS
 		if lim == 0 {
@@ -366,6 +369,17 @@ func (e *Env) runOnce(bin string, job Job, prop string, shard int, from int64, s
 	}
 	if job.Mode == "race" {
 		cmd.Env = append(cmd.Env, "GORACE=halt_on_error=0")
+	}
+	if job.Mode == "racefree" {
+		// free-running goroutines under the race detector; its reports go to a log the harness reads back
+		cmd.Env = append(os.Environ(), "GOMAXPROCS=4", "GOTRACEBACK=single", "GORACE=halt_on_error=0 exitcode=0 log_path="+base+".racelog", "VERIF_RACELOG="+base+".racelog")
+		defer func() {
+			if m, _ := filepath.Glob(base + ".racelog.*"); !e.Keep {
+				for _, f := range m {
+					os.Remove(f)
+				}
+			}
+		}()
 	}
 	if strings.HasPrefix(job.Harness, "mt:") {
 		cmd.Env = append(os.Environ(), "GOTRACEBACK=single")
@@ -576,6 +590,16 @@ func loadKnown(verif string) (*KnownFile, error) {
 	return &kf, nil
 }
 
+// outDir is where evidence and replays are written: /verif, or $VERIF_OUT when a
+// check is pointed at another library tree (trying a seeded change in a scratch
+// worktree must not overwrite the evidence of the registered run).
+func (e *Env) outDir() string {
+	if d := os.Getenv("VERIF_OUT"); d != "" {
+		return d
+	}
+	return e.Verif
+}
+
 // Run executes a property check and returns the process exit code.
 func Run(e *Env, spec *Spec) int {
 	t0 := time.Now()
@@ -591,7 +615,7 @@ func Run(e *Env, spec *Spec) int {
 	if !e.Keep {
 		defer os.RemoveAll(wd)
 	}
-	evPath := filepath.Join(e.Verif, "evidence", spec.Prop+".json")
+	evPath := filepath.Join(e.outDir(), "evidence", spec.Prop+".json")
 	os.MkdirAll(filepath.Dir(evPath), 0o755)
 	os.Remove(evPath)
 
@@ -735,7 +759,9 @@ func Run(e *Env, spec *Spec) int {
 	}
 	if e.Propose && len(proposals) > 0 {
 		b, _ := json.MarshalIndent(proposals, "", " ")
-		os.WriteFile(filepath.Join(e.Verif, ".work", spec.Prop+"-"+e.Tier+"-proposals.json"), b, 0o644)
+		if e.outDir() == e.Verif {
+			os.WriteFile(filepath.Join(e.Verif, ".work", spec.Prop+"-"+e.Tier+"-proposals.json"), b, 0o644)
+		}
 	}
 
 	// evidence
@@ -807,7 +833,7 @@ func firstLines(s string, n int) string {
 }
 
 func (e *Env) writeReplay(prop, class string, a *work.ClassAgg) string {
-	dir := filepath.Join(e.Verif, "replays", prop)
+	dir := filepath.Join(e.outDir(), "replays", prop)
 	os.MkdirAll(dir, 0o755)
 	h := sha1.Sum([]byte(class + "\x00" + a.Witness))
 	p := filepath.Join(dir, fmt.Sprintf("%x.json", h[:6]))
@@ -832,7 +858,7 @@ func Warm(e *Env) int {
 	e.WorkDir = wd
 	rc := 0
 	var wg sync.WaitGroup
-	for _, m := range []string{"plain", "shim", "racevar", "race", "checkptr"} {
+	for _, m := range []string{"plain", "shim", "racevar", "race", "racefree", "checkptr"} {
 		wg.Add(1)
 		go func(m string) {
 			defer wg.Done()
